@@ -103,12 +103,19 @@ def Scalar.mul : Scalar K → Scalar K → Scalar K
   | .negInf, .val x => infTimes false x
   | .val x, .negInf => infTimes false x
 
+/-- `auto_scale[k]`: an autocorrelation that is not finite is replaced by NaN first
+    (`if not np.isfinite(autocorr): autocorr = np.nan`, /repo fix for C15-inf-autocorr), then
+    `np.reciprocal(autocorr) if divide else autocorr` -/
+def Scalar.autoScale (divide : Bool) (a : Scalar K) : Scalar K :=
+  let a := if a.isFinite then a else .nan
+  if divide then a.recip else a
+
 /-- **scalar kernel of `weight_power_scale`, as coded**:
-    `p = scale(a1) * scale(a2)` with `scale = reciprocal` when `divide`;
+    `p = scale(a1) * scale(a2)` with `scale = reciprocal` when `divide` (NaN for a non-finite autocorrelation);
     `p` is replaced by `bad` (`2**-32`) when it is not finite; result `p * w`. -/
 def kernelImpl (bad : K) (divide : Bool) (a1 a2 w : Scalar K) : Scalar K :=
-  let s1 := if divide then a1.recip else a1
-  let s2 := if divide then a2.recip else a2
+  let s1 := a1.autoScale divide
+  let s2 := a2.autoScale divide
   let p := s1.mul s2
   let p := if p.isFinite then p else .val bad
   p.mul w
@@ -133,25 +140,13 @@ def kernelSpec (bad : K) (divide : Bool) (a1 a2 w : Scalar K) : Scalar K :=
     | .val x, .val y => (Scalar.val (x * y)).mul w
     | _, _ => (Scalar.val bad).mul w
 
-/-- the input family on which code and documentation part ways (known finding C15-inf-autocorr):
-    dividing, an autocorrelation is ±inf, and its partner is neither zero nor NaN -/
-def infFamily (divide : Bool) (a1 a2 : Scalar K) : Bool :=
-  divide && match a1, a2 with
-    | .posInf, .val y => decide (y ≠ 0)
-    | .negInf, .val y => decide (y ≠ 0)
-    | .val x, .posInf => decide (x ≠ 0)
-    | .val x, .negInf => decide (x ≠ 0)
-    | .posInf, .posInf => true
-    | .posInf, .negInf => true
-    | .negInf, .posInf => true
-    | .negInf, .negInf => true
-    | _, _ => false
-
 end scalar
 
 /-- the same kernel in hardware binary32 (driver only; `bad = 2**-32`) -/
 def kernelF32 (divide : Bool) (a1 a2 w : Float32) : Float32 :=
   let bad : Float32 := Float32.ofBits 0x2f800000
+  let a1 := if a1.isFinite then a1 else a1 - a1       -- NaN (inf - inf, nan - nan)
+  let a2 := if a2.isFinite then a2 else a2 - a2
   let s1 := if divide then (1.0 : Float32) / a1 else a1
   let s2 := if divide then (1.0 : Float32) / a2 else a2
   let p := s1 * s2
@@ -210,11 +205,12 @@ end lookup
 section wps
 variable {K : Type} [Zero K] [One K] [Mul K] [Div K] [LT K] [DecidableEq K] [DecidableLT K]
 
-/-- `auto_scale[k] = np.reciprocal(autocorr) if divide else autocorr` for `autocorr = vis[i, j, a].real` -/
+/-- `auto_scale[k] = np.reciprocal(autocorr) if divide else autocorr` for `autocorr = vis[i, j, a].real`
+    (NaN in place of a non-finite autocorrelation) -/
 def autoScaleAt (divide : Bool) (visRe : List (Scalar K)) (a : Nat) : Except Err (Scalar K) :=
   match getNat visRe a with
   | .error e => .error e
-  | .ok v => .ok (if divide then v.recip else v)
+  | .ok v => .ok (v.autoScale divide)
 
 /-- body of the `k` loop: `p = auto_scale[index1[k]] * auto_scale[index2[k]]`, substituted by
     `bad_weight` when not finite, times `weights[i, j, k]` -/
